@@ -710,6 +710,7 @@ func BoundaryShapes() []*prog.Program {
 	build("bnd_n", []bool{false}, false)
 	build("bnd_in", []bool{true, false}, false)
 	build("bnd_nn", []bool{false, false}, false)
+	build("bnd_ii", []bool{true, true}, false)
 	build("bnd_sub_i", []bool{true}, true)
 	build("bnd_sub_n", []bool{false}, true)
 	// the host is activated again (loop back from a decision behind it): an event that arrives
